@@ -251,6 +251,35 @@ fn c07_p<P: Kmer>(c: &mut Case) -> Result<(), String> {
         }
         check_clauses(&seq, k, p, &a, &pscore).map_err(|e| format!("[perm score p={} k={} seq={}] {}", p, k, ascii(&seq), e))?;
         c.count("simple_scan_comparisons", 1);
+        // msp_sequence is the third entry point onto the same scan: its pieces must be exactly the
+        // intervals of a scan under the SAME permutation - also right after the caller has rewritten
+        // the permutation buffer in place (a result must not be computed from a remembered table)
+        if m <= 2 * k - p || k > p {
+            let mut perm2 = perm.clone();
+            for round in 0..2 {
+                if round == 1 {
+                    perm2.reverse();
+                    let l = perm2.len();
+                    perm2.swap(0, l / 2);
+                }
+                let sc = |pm: &[u8]| score_of(if rcflag { ScoreKind::PermRcMin } else { ScoreKind::Perm }, pm, &perm2, 0);
+                let calls3 = Cell::new(0u64);
+                let iv = scan_with::<DnaString, P>(&DnaString::from_bytes(&seq), k, &sc, &calls3);
+                let pieces = msp_sequence::<P, DnaString>(k, &seq, Some(&perm2), rcflag);
+                ensure!(pieces.len() == iv.len(), "msp_sequence returns {} pieces, a scan under the same permutation {} intervals (round {})", pieces.len(), iv.len(), round);
+                for (pc, x) in pieces.iter().zip(iv.iter()) {
+                    let canon_min = canon_s(&x.minimizer, false);
+                    let bucket = canon_min.iter().fold(0u64, |acc, b| (acc << 2) | *b as u64) as u32;
+                    ensure!(
+                        pc.2.len() == x.len && pc.0 == bucket && pc.2.to_bytes() == seq[x.start..x.start + x.len],
+                        "msp_sequence piece (len {}, bucket {}) != scan interval (start {}, len {}, bucket {}) under the same permutation{}",
+                        pc.2.len(), pc.0, x.start, x.len, bucket,
+                        if round == 1 { " - after the permutation buffer was rewritten in place" } else { "" }
+                    );
+                }
+                c.count("msp_sequence_vs_scan_comparisons", 1);
+            }
+        }
     }
     c.count("scans", 1);
     c.count("intervals", ivs.len() as u64);
@@ -285,6 +314,7 @@ pub fn run_c07(ctx: &Ctx) {
         ctx.require("scans_with_window_of_250_or_more_pmers", 1000);
         ctx.require("tied_minimum_pmers", 1000);
         ctx.require("simple_scan_comparisons", 100);
+        ctx.require("msp_sequence_vs_scan_comparisons", 100);
     }
 }
 
